@@ -520,6 +520,16 @@ def concat(a, b):
     return SSeq(z3.Concat(sa.t, sb.t), sa.elem, sa.py)
 
 
+def known(f, timeout_ms=400):
+    """cheap entailment test against the current engine's path condition (False = not known)"""
+    f = simplify_bool(f)
+    if isinstance(f, bool):
+        return f
+    if ENGINE is None:
+        return False
+    return ENGINE.prove_now(f, timeout_ms=timeout_ms)
+
+
 def _clamp_index(i, n):
     """Python slice index normalisation: negative -> +len, then clamp to [0, len]"""
     if i is None:
@@ -528,7 +538,24 @@ def _clamp_index(i, n):
         if i < 0:
             i += n
         return max(0, min(i, n))
-    i2 = ite(lt(i, 0), i + n, i)
+    if not is_sym(i) and i == 0:
+        return 0
+    if known(i >= 0):
+        i2 = i
+        lower_ok = True
+    elif known(i < 0):
+        i2 = i + n
+        lower_ok = known(i2 >= 0)
+    else:
+        i2 = ite(lt(i, 0), i + n, i)
+        lower_ok = False
+    upper_ok = known(i2 <= n)
+    if lower_ok and upper_ok:
+        return i2
+    if lower_ok:
+        return ite(gt(i2, n), n, i2)
+    if upper_ok:
+        return ite(lt(i2, 0), 0, i2)
     return ite(lt(i2, 0), 0, ite(gt(i2, n), n, i2))
 
 
@@ -550,7 +577,10 @@ def getitem(s, i):
 def nth(s, i):
     """element access WITHOUT bounds check (the engine emits the safety obligation)."""
     if not is_sym(s) and not is_sym(i):
-        return s[i]
+        if -len(s) <= i < len(s):
+            return s[i]
+        # out of range: unspecified value (contract clauses guard such accesses)
+        return False if (len(s) > 0 and isinstance(s[0], bool)) else 0
     ss = to_seq(s)
     if not is_sym(i) and i < 0:
         i = L(ss) + i
@@ -558,11 +588,13 @@ def nth(s, i):
         base, off, _ln = ss.origin
         return nth(base, off + i)
     e = ss.t[_zi(i)]
+    if ENGINE is not None:
+        if ss.elem == "byte":
+            # type invariant of bytes objects, instantiated at the access
+            ENGINE.pc.append(z3.And(e >= 0, e < 256))
+        ENGINE.on_nth(ss, i)
     if ss.elem == "bool":
         return SBool(e)
-    if ss.elem == "byte" and ENGINE is not None:
-        # type invariant of bytes objects, instantiated at the access
-        ENGINE.pc.append(z3.And(e >= 0, e < 256))
     return SInt(e)
 
 
@@ -575,7 +607,10 @@ def slice_(s, lo, hi, step=None):
     n = L(ss)
     a = _clamp_index(0 if lo is None else lo, n)
     b = _clamp_index(n if hi is None else hi, n)
-    ln = ite(gt(b, a), b - a, 0) if (is_sym(a) or is_sym(b)) else max(0, b - a)
+    if is_sym(a) or is_sym(b):
+        ln = (b - a) if known(b >= a) else ite(gt(b, a), b - a, 0)
+    else:
+        ln = max(0, b - a)
     if ss.origin is not None:
         base, off0, _l0 = ss.origin
         origin = (base, off0 + a, ln)
@@ -599,16 +634,78 @@ def zeros_axioms(n, k):
 
 
 # ---- integer helpers ---------------------------------------------------------------------------
+def _linear(t):
+    """linear form of an Int term: ({id: (coef, atom)}, const) - atoms are maximal non-arithmetic subterms"""
+    t = z3.simplify(t, som=True, arith_lhs=False)
+    coefs = {}
+    const = 0
+
+    def add_atom(atom, c):
+        k = atom.get_id()
+        if k in coefs:
+            coefs[k] = (coefs[k][0] + c, atom)
+        else:
+            coefs[k] = (c, atom)
+
+    def walk(u, mult):
+        nonlocal const
+        if z3.is_int_value(u):
+            const += mult * u.as_long()
+            return
+        if z3.is_add(u):
+            for ch in u.children():
+                walk(ch, mult)
+            return
+        if z3.is_sub(u):
+            ch = u.children()
+            walk(ch[0], mult)
+            for c2 in ch[1:]:
+                walk(c2, -mult)
+            return
+        if z3.is_app_of(u, z3.Z3_OP_UMINUS):
+            walk(u.arg(0), -mult)
+            return
+        if z3.is_mul(u):
+            ch = u.children()
+            nums = [c for c in ch if z3.is_int_value(c)]
+            rest = [c for c in ch if not z3.is_int_value(c)]
+            if len(rest) == 1:
+                m = mult
+                for nn in nums:
+                    m *= nn.as_long()
+                walk(rest[0], m)
+                return
+            if not rest:
+                m = mult
+                for nn in nums:
+                    m *= nn.as_long()
+                const += m
+                return
+        add_atom(u, mult)
+
+    walk(t, 1)
+    return coefs, const
+
+
 def floordiv(a, b):
     if not is_sym(a) and not is_sym(b):
         return a // b
     if not is_sym(b):
-        if b > 0:
-            return SInt(_zi(a) / z3.IntVal(b))
+        if b == 0:
+            raise EngineError("division by constant zero")
         if b < 0:
             # floor(a / b) = floor(-a / -b)
-            return SInt((-_zi(a)) / z3.IntVal(-b))
-        raise EngineError("division by constant zero")
+            return floordiv(-a, -b)
+        # (sum c_i x_i + c0) div b  with every c_i divisible by b  ==  sum (c_i/b) x_i + c0 div b
+        coefs, const = _linear(_zi(a))
+        if all(c % b == 0 for c, _ in coefs.values()):
+            t = z3.IntVal(const // b)
+            for c, atom in coefs.values():
+                if c != 0:
+                    t = t + z3.IntVal(c // b) * atom
+            t = z3.simplify(t)
+            return t.as_long() if z3.is_int_value(t) else SInt(t)
+        return SInt(_zi(a) / z3.IntVal(b))
     # symbolic divisor: the engine must have proved b > 0
     return SInt(_zi(a) / _zi(b))
 
@@ -618,6 +715,10 @@ def mod(a, b):
         return a % b
     if not is_sym(b) and b < 0:
         raise EngineError("modulo by negative constant")
+    if not is_sym(b) and b > 0:
+        coefs, const = _linear(_zi(a))
+        if all(c % b == 0 for c, _ in coefs.values()):
+            return const % b
     return SInt(_zi(a) % _zi(b))
 
 
@@ -804,5 +905,22 @@ def simplify_bool(b):
             return True
         if z3.is_false(s):
             return False
-        return SBool(s)
+        return b  # keep the original term: z3.simplify rewrites seq.nth into internal nth_i/nth_u forms
     return b
+
+
+def all_true_of(c, bs):
+    """reduce(and_, bs, True)"""
+    if not is_sym(bs):
+        return all(bs)
+    from .builtins_model import all_true
+
+    return all_true(c.eng, bs)
+
+
+def any_true_of(c, bs):
+    if not is_sym(bs):
+        return any(bs)
+    from .builtins_model import any_true
+
+    return any_true(c.eng, bs)
